@@ -59,7 +59,10 @@ func main() {
 	os.MkdirAll(fwDir, 0o755)
 	fw := filepath.Join(fwDir, "ovmf.fd")
 	os.WriteFile(fw, image, 0o644)
-	t0 := fx.T0
+	// The whole history lives in an epoch the wall clock is far away from (certificates from 2040),
+	// so that only the verification time the caller names can make anything valid: a verifier that
+	// falls back to the wall clock anywhere rejects everything here.
+	t0 := time.Date(2040, 3, 1, 12, 0, 0, 0, time.UTC)
 	tsf := func(t time.Time) string { return "--timestamp=" + t.Format(time.RFC3339) }
 	allCmds := []cmdSpec{
 		{"bootstrap", []string{"bootstrap", tsf(t0)}, t0, false},
